@@ -16,7 +16,7 @@ from ..q import FA, call_name, cfg_of, guard_facts, is_self_attr, walk_no_nested
 from ..resolve import resolver
 from ..rules.api import ext_aliases
 
-TECHNIQUE = "R-RNG: package-wide classification of every random-producing call site by the resolved library path (global numpy/torch generator vs. anything else), who-may-seed, R-ORDER on the seeding call chain, taint + control-dependence analysis of RNG-consuming calls against parallelisation settings; dominating-read rule for memoised probes and RNG save/restore brackets"
+TECHNIQUE = "R-RNG: package-wide classification of every random-producing call site by the resolved library path (global numpy/torch generator vs. anything else), who-may-seed, R-ORDER on the seeding call chain, taint + control-dependence analysis of RNG-consuming calls against parallelisation settings; dominating-read rule for memoised probes and RNG save/restore brackets; set-iteration audit with a reviewed table"
 
 NP_CONSUMERS = {"rand", "randn", "random", "random_sample", "uniform", "normal", "choice", "permutation", "shuffle", "randint", "multinomial", "multivariate_normal", "exponential", "gamma", "beta", "standard_normal", "chisquare", "binomial", "poisson", "sample", "ranf", "dirichlet", "laplace", "lognormal", "triangular", "vonmises", "power"}
 NP_FORBIDDEN = {"default_rng", "RandomState", "Generator", "SeedSequence", "PCG64", "MT19937", "Philox", "SFC64", "BitGenerator"}
@@ -521,7 +521,7 @@ def taint_attrs(prog):
 
 
 CLAIM = {
-    "text": "Whole-package randomness audit: every random-producing call site (50+, classified by the resolved library path) draws from the numpy or torch global generator; the stdlib random/secrets/uuid modules, os.urandom, default_rng/Generator/RandomState, torch.Generator, explicit generator= / random_state= arguments are absent (a planted fixture proves the rule fires); np.random.seed and torch.manual_seed are called only from configure_random_seed, with the stored seed, on every path, from the base constructor, to which both samplers forward the user's seed before any call that can consume randomness; no RNG-consuming call or lazily evaluated property (the 10-point vectorisation probes) is control-dependent on, or short-circuited by, a likelihood-parallelisation setting (pool, n_pool, chunksize, parallelise_prior) or a flag derived from one. The one dependence found - the probe skipped for a user pool of unknown size - is a recorded known finding. One obligation per (RNG-consuming site, setting it depends on), so a known dependence never hides a new one; the function / pool-wrapper / flag / probe table of the three batch evaluators is consistent, so enabling a pool or parallel prior evaluation does not change what is evaluated. Taints include plain names (constructor / function parameters) named like a parallelisation setting, and a read of an RNG-consuming property through an untyped receiver counts as a consumer. A read of a memoised probe dominated by an identical read, and numpy draws bracketed by get_state / try / finally set_state, consume nothing the rest of the run can see and are not obligations.",
+    "text": "Whole-package randomness audit: every random-producing call site (50+, classified by the resolved library path) draws from the numpy or torch global generator; the stdlib random/secrets/uuid modules, os.urandom, default_rng/Generator/RandomState, torch.Generator, explicit generator= / random_state= arguments are absent (a planted fixture proves the rule fires); np.random.seed and torch.manual_seed are called only from configure_random_seed, with the stored seed, on every path, from the base constructor, to which both samplers forward the user's seed before any call that can consume randomness; no RNG-consuming call or lazily evaluated property (the 10-point vectorisation probes) is control-dependent on, or short-circuited by, a likelihood-parallelisation setting (pool, n_pool, chunksize, parallelise_prior) or a flag derived from one. The one dependence found - the probe skipped for a user pool of unknown size - is a recorded known finding. One obligation per (RNG-consuming site, setting it depends on), so a known dependence never hides a new one; the function / pool-wrapper / flag / probe table of the three batch evaluators is consistent, so enabling a pool or parallel prior evaluation does not change what is evaluated. Taints include plain names (constructor / function parameters) named like a parallelisation setting, and a read of an RNG-consuming property through an untyped receiver counts as a consumer. A read of a memoised probe dominated by an identical read, and numpy draws bracketed by get_state / try / finally set_state, consume nothing the rest of the run can see and are not obligations. No iteration over a set-typed expression orders anything that reaches the sampler (C14.5: str hashes differ between processes); the ten pristine set iterations are reviewed order-insensitive uses.",
     "note": "Decides where randomness comes from and what its consumption may depend on, not bit identity: pool/fork behaviour, BLAS/torch thread non-determinism and the user's functions are outside the analysed program; ordered evaluation is C10.3.",
 }
 
